@@ -1,7 +1,7 @@
 (* C04 - angle subtraction (and division by an angle), forward-only.  Pinned theorems only. *)
 From Coq Require Import ZArith Reals Lra.
 From Flocq Require Import Core BinarySingleNaN.
-Require Import GV.FloatBase GV.FloatLemmas GV.AngleM GV.AngleProofs GV.NewProofs GV.CtorProofs.
+Require Import GV.FloatBase GV.FloatLemmas GV.AngleM GV.AngleProofs GV.NewProofs GV.CtorProofs GV.GeonumM GV.PiBounds GV.TrigProofs GV.DotValue.
 Open Scope R_scope.
 
 Theorem C04_spellings : forall a b,
@@ -61,3 +61,19 @@ Theorem C04_divf : forall a k, Canon a -> (blade a < 2 ^ 50)%Z -> fin k ->
     <= R_ eps10 + / 4503599627370496 + bpow radix2 (-69) + bpow radix2 (-49) * (theta a / R_ k).
 Proof. exact divf_value. Qed.
 Print Assumptions C04_divf.
+
+(* for ANY pair of canonical operands (no blade-order premise): the difference denotes theta a - theta b
+   up to a non-negative number j of lifted whole turns; and with the REAL pi it points along
+   dirR a - dirR b + 2 pi j within 1e-10 + 3*2^-52 + 2e-16 *)
+Theorem C04_total_any : forall a b, canonp (rem a) -> canonp (rem b) ->
+  exists j : Z, (0 <= j)%Z /\
+  Rabs (theta (geometric_sub a b) - (theta a - theta b) - IZR (4 * j) * R_ Q) <= R_ eps10 + 3 * / 4503599627370496.
+Proof. exact geometric_sub_total_gen. Qed.
+Print Assumptions C04_total_any.
+
+Theorem C04_direction : forall a b, canonp (rem a) -> canonp (rem b) ->
+  exists j : Z, (0 <= j)%Z /\
+  Rabs (dirR (geometric_sub a b) - (dirR a - dirR b) - 2 * IZR j * Rtrigo1.PI)
+    <= R_ eps10 + 3 * / 4503599627370496 + 2 / 10000000000000000.
+Proof. exact geometric_sub_dirR. Qed.
+Print Assumptions C04_direction.
